@@ -666,7 +666,8 @@ func (c *CEnv) evalCall(e *Expr) Val {
 				return Val{t: fmt.Sprintf("(str.len %s)", v.t), typ: tInt}
 			case *types.Map:
 				f := s.uf("maplen:"+typeKey(u.Key()), []string{fmt.Sprintf("(Array %s Bool)", s.tc.sortOf(u.Key()))}, "Int")
-				return Val{t: fmt.Sprintf("(%s (select %s %s))", f, s.region(c.heap, mapHasRegion(u), s.mapHasSort(u)), v.t), typ: tInt}
+				// as in the code's len(m): a nil map has length 0
+				return Val{t: fmt.Sprintf("(ite (= %s 0) 0 (%s (select %s %s)))", v.t, f, s.region(c.heap, mapHasRegion(u), s.mapHasSort(u)), v.t), typ: tInt}
 			case *types.Pointer:
 				if arr, ok := u.Elem().Underlying().(*types.Array); ok {
 					return Val{t: fmt.Sprintf("%d", arr.Len()), typ: tInt}
